@@ -290,7 +290,10 @@ func (c *context) SendMsg(m *protocol.Message) error {
 	// It is responsible for providing the blocking semantic and
 	// ultimately back-pressure.  Note that we will "continue" if
 	// sending is canceled by a subsequent send.
-	for c.sendMsg == m && !expired && !c.closed && !(c.failNoPeers && len(s.pipes) == 0) {
+	// We also stop waiting if we are no longer queued although our message
+	// was not picked up: the request was canceled under us (for example by
+	// a concurrent RecvMsg timing out), which also stopped our send timer.
+	for c.sendMsg == m && c.queued && !expired && !c.closed && !(c.failNoPeers && len(s.pipes) == 0) {
 		c.cond.Wait()
 	}
 	if c.sendMsg == m {
@@ -302,6 +305,9 @@ func (c *context) SendMsg(m *protocol.Message) error {
 		}
 		if c.failNoPeers && len(s.pipes) == 0 {
 			return protocol.ErrNoPeers
+		}
+		if !expired {
+			return protocol.ErrCanceled
 		}
 		return protocol.ErrSendTimeout
 	}
